@@ -89,7 +89,7 @@ theorem stepFn_complete {n : Nat} {s s' : State} {w : Nat} (h : Step n s w s') :
   case sendQuit c hw hpc => exact ⟨.go, by simp [stepFn, hw, hpc]⟩
   case exit c hw hpc => exact ⟨.go, by simp [stepFn, hw, hpc]⟩
 
-def demoRoots : List Tree := [.node 0 [.node 1 [], .node 2 [.node 3 []]]]
+def demoRoots : List Tree := [.node [0] [.node [1] [], .node [2] [.node [3] []]]]
 
 def demoSched : List (Nat × Act) :=
   [ (1, .go), (1, .stealFail), (1, .go), (1, .go), (1, .go),          -- worker 1 finds nothing, deactivates
